@@ -178,3 +178,36 @@ def formatStr (lf : Option (Nat × Nat)) (s0 : Str) : Str :=
 def format (lf : Option (Nat × Nat)) (d : Dec) : Str := formatStr lf (toStr d)
 
 end RTV.Dec
+
+namespace RTV.Dec
+open RTV.Py
+
+/-- strip trailing zeros of a coefficient, raising the exponent (fuel = number of digits) -/
+def stripZeros : Nat → Nat → Int → Nat × Int
+  | 0, c, e => (c, e)
+  | fuel + 1, c, e => if c != 0 && c % 10 == 0 then stripZeros fuel (c / 10) (e + 1) else (c, e)
+
+/-- `repr(float(d))` for a decimal with at most 15 significant digits (every result of a precision-15 context):
+such a decimal survives the round trip through a double, so the shortest repr has exactly its digits. CPython's
+`float_repr_style = 'short'`, format code `r`: exponent form iff `decpt > 16` or `decpt < -3`. -/
+def floatRepr (d : Dec) : Str :=
+  let sign : Str := if d.neg then [45] else []
+  if d.coeff == 0 then sign ++ [48, 46, 48]
+  else
+    let (c, e) := stripZeros (ndigits d.coeff) d.coeff d.exp
+    let ds := digitsOf c
+    let n : Int := ds.length
+    let decpt : Int := n + e
+    if decpt > 16 || decpt < -3 then
+      let mant : Str := match ds with
+        | [] => []
+        | [a] => [a]
+        | a :: r => a :: 46 :: r
+      let x := decpt - 1
+      let xs := natStr x.natAbs
+      sign ++ mant ++ [101] ++ (if x < 0 then [45] else [43]) ++ (if xs.length < 2 then 48 :: xs else xs)
+    else if decpt ≤ 0 then sign ++ [48, 46] ++ List.replicate (-decpt).toNat 48 ++ ds
+    else if decpt ≥ n then sign ++ ds ++ List.replicate (decpt - n).toNat 48 ++ [46, 48]
+    else sign ++ ds.take decpt.toNat ++ [46] ++ ds.drop decpt.toNat
+
+end RTV.Dec
